@@ -3,6 +3,9 @@
 // instrumented code, every armed allocation, every simulated stream call). Oracle 1: results equal the sequential run.
 // Oracle 2 (tsan flavour): ThreadSanitizer, which cannot see the scheduler's hand-off, reports any unsynchronised pair.
 #include <chrono>
+#include <filesystem>
+#include <fstream>
+#include <unistd.h>
 #include "scen_util.h"
 #include "zoo_gen.h"
 #include "simsched.h"
@@ -10,8 +13,8 @@
 
 namespace hz {
 
-enum OpKind { OP_SAVE_OWN = 0, OP_LOAD_OWN, OP_SAVE_SHARED, OP_LOAD_SHARED, OP_CONVERT, OP_LOAD_INVALID, OP_LOAD_CORRUPT, OP_SAVE_SHARED_ZOO, OP_LOAD_SHARED_ZOO, OP_COUNT };
-static const char* OpName(int k) { static const char* n[] = { "save_own", "load_own", "save_shared", "load_shared", "convert", "load_invalid", "load_corrupt", "save_shared_zoo", "load_shared_zoo" }; return n[k]; }
+enum OpKind { OP_SAVE_OWN = 0, OP_LOAD_OWN, OP_SAVE_SHARED, OP_LOAD_SHARED, OP_CONVERT, OP_LOAD_INVALID, OP_LOAD_CORRUPT, OP_SAVE_SHARED_ZOO, OP_LOAD_SHARED_ZOO, OP_FILE, OP_COUNT };
+static const char* OpName(int k) { static const char* n[] = { "save_own", "load_own", "save_shared", "load_shared", "convert", "load_invalid", "load_corrupt", "save_shared_zoo", "load_shared_zoo", "file_roundtrip" }; return n[k]; }
 
 bool g_coldRun = false;   // set by the worker's `cold` command: nothing of the library has run in this process yet
 
@@ -27,6 +30,7 @@ struct Op
 	int64_t number = 0;       // convert
 	double real = 0;
 	std::u32string text;
+	std::string path;         // file_roundtrip: the file this operation (and nobody else) owns
 	bool ownOptions = false;  // operations on own data may run with their own options (separator, policies), different per thread
 	SerializationOptions options;
 };
@@ -108,6 +112,17 @@ static std::string Execute(const Op& op, const Shared& sh)
 			r = Guarded([&] { ops.LoadDyn(target, o, IoIn{ nullptr, &is }); });
 		}
 		return Summ(r, TraceRepr(target));
+	}
+	case OP_FILE:
+	{
+		// SaveObjectToFile + LoadObjectFromFile on a file of its own (other operations use other names in the same directory)
+		DynNode& doc = const_cast<DynNode&>(op.doc);
+		CallResult r = Guarded([&] { ops.SaveDynToFile(doc, o, op.path); });
+		std::string content;
+		{ std::ifstream f(op.path, std::ios::binary); std::stringstream ss; ss << f.rdbuf(); content = ss.str(); }
+		DynNode target = Skeleton(op.doc);
+		CallResult r2 = Guarded([&] { ops.LoadDynFromFile(target, o, op.path); });
+		return Summ(r, content) + "//" + Summ(r2, TraceRepr(target));
 	}
 	case OP_SAVE_SHARED_ZOO:
 	{
@@ -222,6 +237,10 @@ Outcome RunC19(RunCtx& ctx)
 	}
 	std::vector<ThreadWork> work(T);
 	std::string plan;
+	uint32_t usedFileNames = 0;
+	const std::string fileDir = (std::filesystem::temp_directory_path() / ("simcheck-c19-" + std::to_string(getpid()))).string();
+	std::filesystem::create_directories(fileDir);
+	struct RemoveDir { std::string d; ~RemoveDir() { std::error_code ec; std::filesystem::remove_all(d, ec); } } removeDir{ fileDir };
 	// swarm: 1 run in 3 keeps every thread in the same code (one archive, one direction, one entry), so that two threads are
 	// likely to be inside the same function at the same time
 	const bool focus = s.chance(sim::L_PROG, 1, 3);
@@ -254,7 +273,23 @@ Outcome RunC19(RunCtx& ctx)
 			op.outBuf = s.pick(sim::L_IO, bufs);
 			g.archive = op.archive;
 			g.allowEmptyContainers = op.archive != A_CSV;
-			if (op.kind == OP_SAVE_OWN || op.kind == OP_LOAD_OWN || op.kind == OP_LOAD_INVALID || op.kind == OP_LOAD_CORRUPT)
+			if (op.kind == OP_FILE)
+			{
+				// every file operation of the run gets a name of its own; names share stems across archives (report.json, report.xml, ...)
+				static const char* const stems[] = { "report", "data", "state" };
+				static const char* const exts[] = { "msgpack", "json", "xml", "csv" };
+				bool found = false;
+				for (uint32_t tries = 0; tries < 3 && !found; ++tries)
+				{
+					const uint32_t st = (s.draw(sim::L_PROG, 3) + tries) % 3;
+					const uint32_t slot = st * 4 + static_cast<uint32_t>(op.archive);
+					if (!(usedFileNames & (1u << slot))) { usedFileNames |= 1u << slot; op.path = fileDir + "/" + stems[st] + "." + exts[op.archive]; found = true; }
+				}
+				if (!found) op.kind = OP_SAVE_OWN;
+			}
+			// 1 own document in 8 is a chain of 100...140 nested arrays (every thread then holds that many open scopes at once)
+			const bool deep = op.archive != A_CSV && (op.kind == OP_SAVE_OWN || op.kind == OP_LOAD_OWN || op.kind == OP_FILE) && s.chance(sim::L_DOC, 1, 8);
+			if (op.kind == OP_SAVE_OWN || op.kind == OP_LOAD_OWN || op.kind == OP_LOAD_INVALID || op.kind == OP_LOAD_CORRUPT || op.kind == OP_FILE)
 			{
 				op.ownOptions = s.chance(sim::L_CFG, 1, 2);
 				if (op.ownOptions)
@@ -268,7 +303,15 @@ Outcome RunC19(RunCtx& ctx)
 					}
 				}
 				op.doc = GenDocument(s, sim::L_DOC, g);
-				if (op.kind != OP_SAVE_OWN)
+				if (deep)
+				{
+					const uint32_t depth = 100 + s.draw(sim::L_DOC, 41);
+					DynNode chain(K::I32);
+					chain.i32 = static_cast<int32_t>(depth);
+					for (uint32_t d = 0; d < depth; ++d) { DynNode outer(K::Arr); outer.items.push_back(std::move(chain)); chain = std::move(outer); }
+					op.doc = std::move(chain);
+				}
+				if (op.kind != OP_SAVE_OWN && op.kind != OP_FILE)
 				{
 					(void)SaveDynWith(GetOps(op.archive), op.doc, op.bytes, op.ownOptions ? op.options : sh.options, OutCfg{});
 					if (op.kind == OP_LOAD_CORRUPT) (void)CorruptOnce(s, sim::L_FAULT, op.bytes, op.archive == A_MSGPACK, ctx);
